@@ -491,7 +491,15 @@ class State(object):
         allow = self.flags.get('allow-abstract-witness')     # a rule may exempt a class of symbols it has shown to be arbitrary (regex)
 
         def is_abs(a):
+            if isinstance(a, tuple) and a[0] in ('load', 'tbl') and isinstance(a[2], Lin):
+                # a unit read from memory at a position given by other symbols: as concrete as those symbols are
+                return any(is_abs(b) and b not in pinned for b in base_atoms(a[2]))
             return bool(_WIDE.search(allow.sub('', repr(a)) if allow is not None else repr(a)))
+        pinned = set()
+        for a in list(atoms):
+            if isinstance(a, tuple) and a[0] in ('load', 'tbl') and isinstance(a[2], Lin):
+                for b in base_atoms(a[2]):
+                    atoms.add(b)
         first_iter = []
         if STRICT_WITNESS and any(is_abs(a) for a in atoms):
             # A symbol that stands for a loop-carried value may still take part when it is pinned to the value the slot has on loop
@@ -507,7 +515,7 @@ class State(object):
                             if b not in atoms:
                                 atoms.add(b)
                                 grew = True
-            pinned = set(a for a, e in first_iter)
+            pinned.update(a for a, e in first_iter)
             for a, e in first_iter:
                 d = Lin.atom(a) - e
                 rel_facts.append(d)
@@ -641,7 +649,7 @@ class State(object):
 
     def entry_terms(self):
         """{symbol of a loop-carried slot at the head of its (abstracted-at-first-arrival) loop -> term of the slot on loop entry}"""
-        out = {}
+        out = dict(self.flags.get('entry-terms') or {})
         for k, begin in self.flags.items():
             if not (isinstance(k, str) and k.startswith('hbegin:')):
                 continue
